@@ -2,7 +2,7 @@
 (* constants for the C07 configs; Emit prints every terminal state (one per script) *)
 EXTENDS Bailiwick, Json
 
-AllPre   == {"none", "wrongid", "wrongq", "wrongidq", "tcpwrongid", "twoq"}
+AllPre   == {"none", "wrongid", "wrongq", "wrongidq", "tcpwrongid", "twoq", "flood"}
 NoPre    == {"none"}
 AllKinds == AnsKinds \cup RefKinds
 
